@@ -69,6 +69,9 @@ impl ReadCase {
         for (i, k) in &self.script.faults {
             f.u(*i as u64 | 1 << 41).s(&format!("{:?}", k));
         }
+        for (i, k) in &self.script.pos_faults {
+            f.u(*i as u64 | 1 << 44).s(&format!("{:?}", k));
+        }
         f.s(&format!("{:?}", self.driver));
         for e in &self.spec.elems {
             f.u(e.id).u(e.ty as u64).u(e.path.len() as u64);
